@@ -9,7 +9,9 @@ use std::io::{BufRead, BufReader, Write};
 use std::process::{Child, ChildStdin, ChildStdout, Command, Stdio};
 use std::time::Instant;
 
+/// (size and alignment 8, like f64, so that code keyed on `size_of::<T>()` takes the same route as for f64)
 #[derive(Clone, Copy, Debug)]
+#[repr(align(8))]
 pub struct Sym(pub u32);
 
 #[derive(Clone, PartialEq, Eq, Hash, Debug)]
@@ -164,6 +166,7 @@ impl Solver {
         let dt = t0.elapsed().as_secs_f64();
         self.secs += dt;
         if nonlinear { self.secs_nl += dt; }
+        if dt > 0.5 { if let Ok(dir) = std::env::var("VERIF_DUMP_SLOW") { let _ = std::fs::write(format!("{}/slow-{}-{}.smt2", dir, std::process::id(), self.queries), format!("{}\n{}(check-sat)\n", self.decls.join("\n"), self.last_query_only)); } }
         if dt > 3.0 { let m = format!("slow query {:.1}s -> {:?} [{}] nl={} asserts={}", dt, r, self.tag, nonlinear, asserts.len()); if std::env::var("VERIF_SLOWLOG").is_ok() { eprintln!("{}", m); } if self.slow.len() < 4 { self.slow.push(m); } }
         r
     }
@@ -237,6 +240,10 @@ pub struct Ctx {
     deps: Vec<[u32; 2]>,
     ndeps: Vec<u8>,
     nl: Vec<bool>,
+    defs: Vec<String>,
+    declared: Vec<bool>,
+    /// the term contains, outside any sqrt/transcendental atom, a division by a non-constant
+    hd: Vec<bool>,
     pub solver: Solver,
     pub mode: Mode,
     pub exact_inputs: HashMap<String, BigRational>,
@@ -273,6 +280,12 @@ pub struct Ctx {
     pub unit_box: std::collections::HashSet<u32>,
     alin_memo: RefCell<HashMap<u32, std::rc::Rc<ALin>>>,
     poly_memo: RefCell<HashMap<u32, Option<std::rc::Rc<Poly>>>>,
+    rat_memo: RefCell<HashMap<u32, Option<(std::rc::Rc<Poly>, std::rc::Rc<Poly>)>>>,
+    pub n_rat_decided: std::cell::Cell<u64>,
+    /// the rational normal form is tried for obligations only (not for the code's own comparisons, where an identity is rare and the
+    /// expansion costs more than the query)
+    rat_ok: std::cell::Cell<bool>,
+    box_seq: u64,
     pub n_poly_decided: std::cell::Cell<u64>,
     /// cross-check every k-th UNSAT obligation (and every SAT one) with cvc5 (0 = off)
     pub crosscheck_every: u64,
@@ -319,9 +332,11 @@ impl ALin {
 /// polynomial normal form over atoms (variables, uninterpreted applications, quotients by a symbolic divisor, square roots with
 /// sqrt(a)^2 rewritten to a): used only to decide *identities* `p == q` by expansion; anything else goes to the solver
 pub type Mono = Vec<(u32, u32)>;
-#[derive(Clone)]
+#[derive(Clone, PartialEq)]
 pub struct Poly { pub m: std::collections::BTreeMap<Mono, BigRational> }
 const POLY_CAP: usize = 2500;
+/// cap (monomials) of the rational normal form: it multiplies denominators out, so it is kept small
+const RAT_CAP: usize = 160;
 impl Poly {
     fn konst(c: BigRational) -> Poly { let mut m = std::collections::BTreeMap::new(); if !c.is_zero() { m.insert(vec![], c); } Poly { m } }
     fn atom(id: u32) -> Poly { let mut m = std::collections::BTreeMap::new(); m.insert(vec![(id, 1)], BigRational::one()); Poly { m } }
@@ -382,14 +397,15 @@ pub fn f64_rat(f: f64) -> BigRational {
 impl Ctx {
     pub fn new(timeout_ms: u64) -> Self {
         Ctx {
-            nodes: vec![], cons: HashMap::new(), deps: vec![], ndeps: vec![], nl: vec![],
+            nodes: vec![], cons: HashMap::new(), deps: vec![], ndeps: vec![], nl: vec![], hd: vec![], defs: vec![], declared: vec![],
             solver: Solver::new(timeout_ms), mode: Mode::Symbolic, exact_inputs: HashMap::new(), exact_default: BigRational::zero(),
             var_names: vec![], var_ids: HashMap::new(),
             pc: vec![], decisions: vec![], prefix: vec![], pending: vec![], trace: vec![], cache: HashMap::new(),
-            stats: PathStats::default(), violations: vec![], max_decisions: 400, check_obligations: true, approx: false, n_inputs: 0, branch_nl_timeout_ms: timeout_ms, deadline: None, pc_smt: vec![], levels: vec![], solver_epoch: 0, lin_memo: RefCell::new(HashMap::new()), n_lin_decided: std::cell::Cell::new(0), unit_box: Default::default(), alin_memo: RefCell::new(HashMap::new()), poly_memo: RefCell::new(HashMap::new()), n_poly_decided: std::cell::Cell::new(0), crosscheck_every: 0, ob_seq: 0, crosscheck: (0, 0, 0, vec![]), concolic: None, concretised: false, fval_memo: RefCell::new(HashMap::new()),
+            stats: PathStats::default(), violations: vec![], max_decisions: 400, check_obligations: true, approx: false, n_inputs: 0, branch_nl_timeout_ms: timeout_ms, deadline: None, pc_smt: vec![], levels: vec![], solver_epoch: 0, lin_memo: RefCell::new(HashMap::new()), n_lin_decided: std::cell::Cell::new(0), unit_box: Default::default(), alin_memo: RefCell::new(HashMap::new()), poly_memo: RefCell::new(HashMap::new()), n_poly_decided: std::cell::Cell::new(0), rat_memo: RefCell::new(HashMap::new()), n_rat_decided: std::cell::Cell::new(0), rat_ok: std::cell::Cell::new(false), box_seq: 0, crosscheck_every: 0, ob_seq: 0, crosscheck: (0, 0, 0, vec![]), concolic: None, concretised: false, fval_memo: RefCell::new(HashMap::new()),
         }
     }
     pub fn begin_path(&mut self, prefix: Vec<u8>) {
+        self.box_seq = 0;
         self.pc.clear();
         self.pc_smt.clear();
         self.decisions.clear();
@@ -450,10 +466,15 @@ impl Ctx {
             _ => false,
         };
         let nl = nl_self || deps[..nd as usize].iter().any(|d| self.nl[*d as usize]);
-        match def {
-            Some(d) => self.solver.declare(&format!("(define-fun n{} () Real {})", i, d)),
-            None => self.solver.declare(&format!("(declare-const n{} Real)", i)),
-        }
+        // declared to the solver lazily, when a query first mentions the node (see `declare_for`): most nodes of a long run — the
+        // exact coefficient products of a recursive filter run to tens of thousands of bits — never reach a query
+        self.defs.push(match def {
+            Some(d) => format!("(define-fun n{} () Real {})", i, d),
+            None => format!("(declare-const n{} Real)", i),
+        });
+        self.declared.push(false);
+        let hd = match &n { Node::Div(_, b) if self.konst(*b).is_none() => true, Node::Sqrt(_) | Node::Uf(..) => false, _ => deps[..nd as usize].iter().any(|d| self.hd[*d as usize]) };
+        self.hd.push(hd);
         self.nl.push(nl);
         self.deps.push(deps);
         self.ndeps.push(nd);
@@ -514,6 +535,16 @@ impl Ctx {
                 if pa.add(&pb, &-BigRational::one()).m.is_empty() { self.n_poly_decided.set(self.n_poly_decided.get() + 1); return Ok(true); }
             }
         }
+        // equality of rational functions: a = Pa/Qa, b = Pb/Qb with every divisor established non-zero on this path (a `Div` node
+        // with a symbolic divisor only exists after the branch `divisor == 0` was taken as false), so Pa*Qb - Pb*Qa == 0 identically
+        // implies a == b
+        if op == 2 && self.rat_ok.get() && (self.hd[a as usize] || self.hd[b as usize]) {
+            if let (Some((pa, qa)), Some((pb, qb))) = (self.ratpoly(a), self.ratpoly(b)) {
+                if let (Some(l), Some(r)) = (self.poly_mul_cap(&pa, &qb, 4 * RAT_CAP), self.poly_mul_cap(&pb, &qa, 4 * RAT_CAP)) {
+                    if l.add(&r, &-BigRational::one()).m.is_empty() { self.n_rat_decided.set(self.n_rat_decided.get() + 1); return Ok(true); }
+                }
+            }
+        }
         let lhs = if d.t.len() == 1 && d.t[0].1.is_one() { format!("n{}", d.t[0].0) } else {
             let mut sum = String::from("(+");
             for (v, c) in &d.t { if c.is_one() { sum.push_str(&format!(" n{}", v)); } else { sum.push_str(&format!(" (* {} n{})", rat_smt(c), v)); } }
@@ -545,8 +576,9 @@ impl Ctx {
         self.fval_memo.borrow_mut().insert(id, v);
         v
     }
-    fn poly_mul(&self, a: &Poly, b: &Poly) -> Option<Poly> {
-        if a.m.len() * b.m.len() > 4 * POLY_CAP { return None; }
+    fn poly_mul(&self, a: &Poly, b: &Poly) -> Option<Poly> { self.poly_mul_cap(a, b, POLY_CAP) }
+    fn poly_mul_cap(&self, a: &Poly, b: &Poly, cap: usize) -> Option<Poly> {
+        if a.m.len() * b.m.len() > 4 * cap { return None; }
         let mut out = Poly { m: Default::default() };
         for (ma, ca) in &a.m { for (mb, cb) in &b.m {
             // merge monomials
@@ -577,7 +609,7 @@ impl Ctx {
                 None => { let e = out.m.entry(mono.clone()).or_insert_with(BigRational::zero); *e += c; if e.is_zero() { out.m.remove(&mono); } }
                 Some(f) => { let mut base = Poly { m: Default::default() }; base.m.insert(mono, c); let prod = self.poly_mul(&base, &f)?; out.add_assign(&prod, &BigRational::one()); }
             }
-            if out.m.len() > POLY_CAP { return None; }
+            if out.m.len() > cap { return None; }
         } }
         Some(out)
     }
@@ -595,6 +627,37 @@ impl Ctx {
         }))();
         let r = r.filter(|p| p.m.len() <= POLY_CAP).map(std::rc::Rc::new);
         let mut m = self.poly_memo.borrow_mut();
+        if m.len() > 4000 { let keep_from = id.saturating_sub(1500); m.retain(|k, _| *k >= keep_from); }
+        m.insert(id, r.clone());
+        r
+    }
+    /// rational normal form P/Q (None beyond the cap); divisors are non-zero on every path on which the term exists
+    pub fn ratpoly(&self, id: u32) -> Option<(std::rc::Rc<Poly>, std::rc::Rc<Poly>)> {
+        use std::rc::Rc;
+        if !self.hd[id as usize] { return Some((self.poly(id).filter(|p| p.m.len() <= RAT_CAP)?, Rc::new(Poly::konst(BigRational::one())))); }
+        if let Some(p) = self.rat_memo.borrow().get(&id) { return p.clone(); }
+        let one = || Rc::new(Poly::konst(BigRational::one()));
+        let is_one = |p: &Poly| p.m.len() == 1 && p.m.get(&vec![]).map_or(false, |c| c.is_one());
+        let r: Option<(Rc<Poly>, Rc<Poly>)> = (|| Some(match &self.nodes[id as usize] {
+            Node::Add(a, b) | Node::Sub(a, b) => {
+                let k = if matches!(self.nodes[id as usize], Node::Add(..)) { BigRational::one() } else { -BigRational::one() };
+                let ((pa, qa), (pb, qb)) = (self.ratpoly(*a)?, self.ratpoly(*b)?);
+                if *qa == *qb { (Rc::new(pa.add(&pb, &k)), qa) }
+                else { let (l, r) = (self.poly_mul_cap(&pa, &qb, RAT_CAP)?, self.poly_mul_cap(&pb, &qa, RAT_CAP)?); (Rc::new(l.add(&r, &k)), Rc::new(self.poly_mul_cap(&qa, &qb, RAT_CAP)?)) }
+            }
+            Node::Neg(a) => { let (pa, qa) = self.ratpoly(*a)?; (Rc::new(pa.scale(&-BigRational::one())), qa) }
+            Node::Mul(a, b) => {
+                let ((pa, qa), (pb, qb)) = (self.ratpoly(*a)?, self.ratpoly(*b)?);
+                (Rc::new(self.poly_mul_cap(&pa, &pb, RAT_CAP)?), if is_one(&qa) { qb } else if is_one(&qb) { qa } else { Rc::new(self.poly_mul_cap(&qa, &qb, RAT_CAP)?) })
+            }
+            Node::Div(a, b) => {
+                let ((pa, qa), (pb, qb)) = (self.ratpoly(*a)?, self.ratpoly(*b)?);
+                (if is_one(&qb) { pa } else { Rc::new(self.poly_mul_cap(&pa, &qb, RAT_CAP)?) }, if is_one(&qa) { pb } else { Rc::new(self.poly_mul_cap(&qa, &pb, RAT_CAP)?) })
+            }
+            _ => (self.poly(id).filter(|p| p.m.len() <= RAT_CAP)?, one()),
+        }))();
+        let r = r.filter(|(p, q)| p.m.len() <= RAT_CAP && q.m.len() <= RAT_CAP);
+        let mut m = self.rat_memo.borrow_mut();
         if m.len() > 4000 { let keep_from = id.saturating_sub(1500); m.retain(|k, _| *k >= keep_from); }
         m.insert(id, r.clone());
         r
@@ -736,6 +799,30 @@ impl Ctx {
         self.pc_smt.push(s);
         self.pc.push(c);
     }
+    /// declare (globally) every node mentioned in `text` as `n<id>`, and everything its definition depends on, in id order
+    fn declare_for(&mut self, text: &str) {
+        let b = text.as_bytes();
+        let mut need: Vec<u32> = vec![];
+        let mut i = 0;
+        while i < b.len() {
+            if b[i] == b'n' && (i == 0 || !(b[i - 1].is_ascii_alphanumeric() || b[i - 1] == b'_' || b[i - 1] == b'.')) {
+                let mut j = i + 1; let mut v: u64 = 0;
+                while j < b.len() && b[j].is_ascii_digit() { v = v * 10 + (b[j] - b'0') as u64; j += 1; }
+                if j > i + 1 && (j == b.len() || !(b[j].is_ascii_alphanumeric() || b[j] == b'_')) && (v as usize) < self.declared.len() && !self.declared[v as usize] { need.push(v as u32); }
+                i = j;
+            } else { i += 1; }
+        }
+        if need.is_empty() { return; }
+        let mut all: Vec<u32> = vec![];
+        while let Some(v) = need.pop() {
+            if self.declared[v as usize] { continue; }
+            self.declared[v as usize] = true;
+            all.push(v);
+            for d in 0..self.ndeps[v as usize] as usize { let x = self.deps[v as usize][d]; if !self.declared[x as usize] { need.push(x); } }
+        }
+        all.sort_unstable();
+        for v in all { let d = self.defs[v as usize].clone(); self.solver.declare(&d); }
+    }
     /// bring the solver's assertion stack (one push level per path-condition conjunct) in line with the current PC
     fn sync(&mut self) {
         if self.solver_epoch != self.solver.n_killed { self.levels.clear(); self.solver_epoch = self.solver.n_killed; }
@@ -748,6 +835,8 @@ impl Ctx {
             let existing: Vec<u32> = self.levels.iter().flat_map(|x| x.special.iter().copied()).collect();
             let newsp: Vec<u32> = sp.into_iter().filter(|n| !existing.contains(n)).collect();
             let ax = self.axioms_for(&newsp, &existing);
+            for a in &ax { self.declare_for(a); }
+            let pcs = self.pc_smt[i].clone(); self.declare_for(&pcs);
             self.solver.send("(push)");
             for a in &ax { self.solver.send(&format!("(assert {})", a)); }
             self.solver.send(&format!("(assert {})", self.pc_smt[i]));
@@ -766,6 +855,12 @@ impl Ctx {
         for c in &refs { asserts.push(self.smt(c)); }
         let nl = nl_e || self.levels.iter().any(|l| l.nl);
         let killed = self.solver.n_killed;
+        for a in &asserts { self.declare_for(a); }
+        if want_model {
+            // the variables whose values will be asked for must exist before check-sat (a declaration afterwards discards the model)
+            let names: String = self.levels.iter().flat_map(|x| x.vars.iter().copied()).chain(vars_e.iter().copied()).map(|v| format!("n{} ", v)).collect();
+            self.declare_for(&names);
+        }
         let r = self.solver.check_t(&asserts, nl, nl_timeout_ms);
         if self.solver.n_killed != killed { self.levels.clear(); self.solver_epoch = self.solver.n_killed; }
         // the full query (for evidence samples and replay files): path condition + this query
@@ -851,6 +946,7 @@ impl Ctx {
             // assertions are scoped: drop to scope 0 first (the path-condition levels are re-pushed by the next sync)
             for _ in 0..self.levels.len() { self.solver.send("(pop)"); }
             self.levels.clear();
+            self.declare_for(&format!("n{}", v));
             self.solver.declare(&format!("(assert (and (<= n{v} 1.0) (>= n{v} (- 1.0))))", v = v));
         }
     }
@@ -917,13 +1013,21 @@ impl Ctx {
         if self.mode != Mode::Symbolic || !self.check_obligations { return self.oblige(label, general); }
         if self.decisions.len() < self.prefix.len() { return; }
         for a in alts {
-            match self.concrete(&a) { Some(true) => { self.stats.obligations += 1; self.stats.discharged += 1; return; } Some(false) => continue, None => {} }
+            self.rat_ok.set(true);
+            let conc = self.concrete(&a);
+            self.rat_ok.set(false);
+            match conc { Some(true) => { self.stats.obligations += 1; self.stats.discharged += 1; return; } Some(false) => continue, None => {} }
             let (r, _, _) = self.query(&[Cond::not(a)], false);
             if r == Sat::Unsat { self.stats.obligations += 1; self.stats.discharged += 1; return; }
         }
         self.oblige(label, general)
     }
     pub fn oblige(&mut self, label: &str, c: Cond<Sym>) {
+        self.rat_ok.set(true);
+        self.oblige_inner(label, c);
+        self.rat_ok.set(false);
+    }
+    fn oblige_inner(&mut self, label: &str, c: Cond<Sym>) {
         if !self.check_obligations { return; }
         // Stated before the replayed decision prefix is exhausted: the parent path stated the same
         // obligation under the identical path condition and it was decided there.
@@ -968,7 +1072,14 @@ impl Ctx {
                 if self.concretised { for (k, v) in self.sample_model() { if !model.iter().any(|(n, _)| *n == k) { model.push((k, v)); } } }
                 self.violations.push(Violation { label: label.into(), kind: "obligation".into(), decisions: self.decisions.clone(), model, model_raw: raw, smt, detail: self.describe(&c) });
             }
-            Sat::Unknown => self.stats.inconclusive.push(label.to_string()),
+            Sat::Unknown => {
+                // along a sampled comparison path there is a concrete point on the path: if the obligation fails there (f64 evaluation of
+                // the terms), it is offered to the replay, which decides (exact arithmetic and native f64 against the real code)
+                if self.concolic.is_some() && !self.holds_on_sample(&c) {
+                    let smt = self.solver.last_query.clone();
+                    self.violations.push(Violation { label: label.into(), kind: "obligation".into(), decisions: self.decisions.clone(), model: self.sample_model(), model_raw: "solver: unknown; the path's sample point violates the obligation".into(), smt, detail: self.describe(&c) });
+                } else { self.stats.inconclusive.push(label.to_string()) }
+            }
         }
     }
     /// |term| <= bound where `term` is a linear form over variables assumed to lie in [-1,1].
@@ -988,11 +1099,13 @@ impl Ctx {
         let short = |m: &BigInt| -> (BigRational, BigRational) { let hi: BigInt = (m >> cut) << cut; (BigRational::new(hi.clone(), BigInt::one() << AGRID), BigRational::new((m - hi).abs(), BigInt::one() << AGRID)) };
         let (c0, d0) = short(&l.c0);
         delta += d0;
+        let mut mass = c0.abs();
         let mut acc = Sym(self.mk(Node::Const(c0)));
         for (v, m) in &l.t {
             let (r, d) = short(m);
             delta += d;
             if r.is_zero() { continue; }
+            mass += r.abs();
             let k = Sym(self.mk(Node::Const(r)));
             let prod = Sym(self.mk(Node::Mul(k.0, *v)));
             acc = Sym(self.mk(Node::Add(acc.0, prod.0)));
@@ -1000,8 +1113,16 @@ impl Ctx {
         if delta > BigRational::new(BigInt::one(), BigInt::from(1000000)) { self.stats.inconclusive.push(format!("{} (coefficient error bound {:.3e} too large for the relaxation)", label, rat_f64(&delta))); return; }
         let b2 = &bound - &delta;
         let bb = Sym(self.mk(Node::Const(b2.clone())));
-        let nb = Sym(self.mk(Node::Const(-b2)));
+        let nb = Sym(self.mk(Node::Const(-b2.clone())));
         let ob = Cond::And(vec![Cond::Le(acc, bb), Cond::Le(nb, acc)]);
+        // The maximum of |c0 + sum r_i x_i| over the box is |c0| + sum |r_i| (attained at a corner): when that is within the bound the
+        // obligation holds for every boxed input, whatever the path condition. Decided by this norm (counted with the normal-form
+        // decisions); the solver is still asked for the first such obligation of a path and every 16th after it, as a check of the
+        // norm computation, and always when the norm exceeds the bound (then it must produce the witness).
+        if mass <= b2 {
+            self.box_seq += 1;
+            if self.box_seq % 16 != 1 { self.stats.obligations += 1; self.stats.discharged += 1; self.n_lin_decided.set(self.n_lin_decided.get() + 1); return; }
+        }
         // First ask without the path condition: the obligation only involves boxed inputs, so if it holds on the whole
         // box it holds on this path (and the query stays linear even when the path condition is not).
         if !self.pc.is_empty() {
@@ -1010,7 +1131,22 @@ impl Ctx {
             self.pc = pc; self.pc_smt = pcs;
             if r == Sat::Unsat { self.stats.obligations += 1; self.stats.discharged += 1; return; }
         }
+        let nv = self.violations.len();
         self.oblige(label, ob);
+        // a `sat` whose model could not be read back (solver restarted at the time limit): the maximiser of a linear form over the
+        // box is known in closed form — x_i = sign(c_i) (times the sign of the constant) — and is offered to the replay instead
+        if self.violations.len() > nv && self.pc.is_empty() {
+            let all_vars = l.t.iter().all(|(v, _)| matches!(self.nodes[*v as usize], Node::Var(_)));
+            if all_vars && self.violations[nv].model.is_empty() {
+                let s0 = if l.c0.is_negative() { -BigRational::one() } else { BigRational::one() };
+                let model: Vec<(String, BigRational)> = l.t.iter().filter(|(_, m)| !m.is_zero()).map(|(v, m)| {
+                    let name = match self.nodes[*v as usize] { Node::Var(vi) => self.var_names[vi as usize].clone(), _ => unreachable!() };
+                    (name, if m.is_negative() { -s0.clone() } else { s0.clone() })
+                }).collect();
+                self.violations[nv].model = model;
+                self.violations[nv].model_raw = "closed-form maximiser of the linear form over the box [-1,1]^n".into();
+            }
+        }
     }
     pub fn describe(&self, c: &Cond<Sym>) -> String {
         let s = self.smt(c);
